@@ -32,6 +32,7 @@ def confirm(out, wt):
     return res
 
 def run(seed_dir, ids):
+    seed_dir = os.path.abspath(seed_dir)
     meta_p = os.path.join(seed_dir, 'meta.json'); meta = json.load(open(meta_p))
     ids = ids or [meta['property']]
     rc, o = sh('git -C /repo status --porcelain --untracked-files=no')
